@@ -19,6 +19,10 @@ pub struct C14 {
     known_values: BTreeSet<Vec<u8>>,
     error_path: bool,
     records: u64,
+    /// variant `crash`: one process death inside a commit-applying call, then the run goes on
+    crash: bool,
+    armed: bool,
+    crashed: bool,
 }
 
 impl C14 {
@@ -50,6 +54,19 @@ impl Oracle for C14 {
         let node = rec.step.node;
         if node >= w.nodes.len() {
             return;
+        }
+        if self.crash && !self.armed && !w.groups.is_empty() {
+            self.armed = true;
+            w.arm_crash_op = Some((vec!["merge", "deliver"], 10 + (w.seed >> 7) % 34));
+        }
+        if rec.crashed_at.is_some() {
+            self.crashed = true;
+            w.probe("death_inside_a_call_then_logs_scanned");
+        }
+        if self.crashed {
+            // what state a death inside a call leaves behind is C12's subject (KF-C12-1); this
+            // check looks at what the library prints while it lives with that state
+            w.violations.retain(|v| v.property == "C14");
         }
         // collect the sensitive values the simulator has seen so far
         let sens: Vec<String> = w.sensitive.iter().cloned().collect();
@@ -142,12 +159,16 @@ impl Oracle for C14 {
     }
 
     fn nontrivial(&self, _w: &World) -> bool {
-        self.error_path && self.records > 0
+        self.error_path && self.records > 0 && (!self.crash || self.crashed)
     }
 }
 
 fn mk(_cfg: &RunCfg) -> Box<dyn Oracle> {
     Box::new(C14::default())
+}
+
+fn mk_crash(_cfg: &RunCfg) -> Box<dyn Oracle> {
+    Box::new(C14 { crash: true, ..Default::default() })
 }
 
 fn conf(g: &mut Gen) {
@@ -168,6 +189,7 @@ pub fn spec() -> CheckSpec {
         variants: vec![
             Variant { name: "mem", profile: Profile { backend: BackendMix::Memory, ..base.clone() }, runs_quick: 250, runs_thorough: 12000, oracle: mk, guarded: false, configure_gen: Some(conf), post: None, custom: None },
             Variant { name: "mixed", profile: Profile { backend: BackendMix::Mixed, ..base.clone() }, runs_quick: 120, runs_thorough: 6000, oracle: mk, guarded: false, configure_gen: Some(conf), post: None, custom: None },
+            Variant { name: "crash", profile: Profile { backend: BackendMix::Sqlite, ..base.clone() }, runs_quick: 120, runs_thorough: 6000, oracle: mk_crash, guarded: false, configure_gen: Some(conf), post: None, custom: None },
         ],
         assumptions: vec!["openmls logs through the `log` crate, which is not bridged to tracing here: only records of the mdk crates (and anything else using tracing) are captured", "a sensitive value is recognised by an 8-byte prefix in the stated encodings"],
         real: super::REAL.to_vec(),
